@@ -78,6 +78,21 @@ func (c BaseSliceWrapper) WireType() plenccore.WireType {
 	return plenccore.WTLength
 }
 
+// clearPointerSlots prepares a re-used backing array for slices of pointers to
+// numbers ([]*int, []*bool...). Plain numbers are overwritten in full by the
+// element codec, but a pointer element is read through if it is not nil: the
+// new values would be written into the old pointees, which whoever still holds
+// the previous contents can see, and two slots holding the same pointer would
+// end up with the same value. Start from nil, as with a new array.
+func (c BaseSliceWrapper) clearPointerSlots(data unsafe.Pointer, count int) {
+	if _, ok := c.Underlying.(PointerWrapper); !ok {
+		return
+	}
+	for i := 0; i < count; i++ {
+		typedmemclr(unpackEFace(c.EltType).data, unsafe.Add(data, i*int(c.EltSize)))
+	}
+}
+
 func (c BaseSliceWrapper) Descriptor() Descriptor {
 	return Descriptor{
 		Type: FieldTypeSlice,
@@ -255,6 +270,8 @@ func (c WTFixedSliceWrapper) Read(data []byte, ptr unsafe.Pointer, wt plenccore.
 		// Ensure the GC knows the type of this slice.
 		h.Data = unsafe_NewArray(c.EltType, int(count))
 		h.Cap = int(count)
+	} else {
+		c.clearPointerSlots(h.Data, count)
 	}
 	h.Len = count
 
@@ -332,6 +349,8 @@ func (c WTVarIntSliceWrapper) Read(data []byte, ptr unsafe.Pointer, wt plenccore
 		// Ensure the GC knows the type of this slice.
 		h.Data = unsafe_NewArray(c.EltType, int(count))
 		h.Cap = int(count)
+	} else {
+		c.clearPointerSlots(h.Data, count)
 	}
 	h.Len = count
 
